@@ -25,8 +25,62 @@ EPHEM_PY = os.path.join(core.REPO, "beyond", "orbits", "ephem.py")
 MU = 3.986004418e14
 
 
+class _Win(ast.NodeTransformer):
+    """`self.order` -> order, `len(self.ys)` -> n : the only non-arithmetic atoms of the window computation"""
+
+    def visit_Attribute(self, n):
+        if isinstance(n.value, ast.Name) and n.value.id == "self" and n.attr == "order":
+            return ast.copy_location(ast.Name("order", ast.Load()), n)
+        return self.generic_visit(n)
+
+    def visit_Call(self, n):
+        if isinstance(n.func, ast.Name) and n.func.id == "len" and ast.unparse(n.args[0]) == "self.ys":
+            return ast.copy_location(ast.Name("n", ast.Load()), n)
+        return self.generic_visit(n)
+
+
+def window_source():
+    """The statements of Interp._lagrange between `prev_idx = …` and the slicing `xs = self.xs[start:stop]`,
+    translated to Lean over Int (Python // and % are Int.fdiv and Int.fmod)."""
+    tree = ast.parse(open(INTERP_PY).read())
+    fn = py2lean.find_function(tree, "Interp._lagrange")
+    stmts = []
+    seen_prev = False
+    slice_txt = None
+    for s in fn.body:
+        if isinstance(s, ast.Expr) and isinstance(s.value, ast.Constant):
+            continue
+        txt = ast.unparse(s)
+        if not seen_prev:
+            if txt != "prev_idx = self._prev_idx(x)":
+                raise py2lean.Untranslatable("_lagrange does not start with prev_idx = self._prev_idx(x): " + txt)
+            seen_prev = True
+            continue
+        if isinstance(s, ast.Assign) and ast.unparse(s.targets[0]) == "xs":
+            slice_txt = txt
+            break
+        stmts.append(_Win().visit(s))
+    if slice_txt != "xs = self.xs[start:stop]":
+        raise py2lean.Untranslatable(f"window is no longer used as xs = self.xs[start:stop]: {slice_txt}")
+    body = py2lean.Tr().block(stmts, "(start, stop)", None)
+    body = re.sub(r"\bR\b", "Int", body).replace("(fdiv ", "(Int.fdiv ").replace("(fmod ", "(Int.fmod ")
+    return "/-- `start, stop` of Interp._lagrange as computed before slicing (translated from the source) -/\ndef windowRaw (prev_idx order n : Int) : Int × Int :=\n" + py2lean.indent(body) + "\n"
+
+
+def default_order_source():
+    tree = ast.parse(open(EPHEM_PY).read())
+    cls = py2lean.find_function(tree, "Ephem")
+    for s in cls.body:
+        if isinstance(s, ast.Assign) and ast.unparse(s.targets[0]) == "DEFAULT_ORDER" and isinstance(s.value, ast.Constant) and isinstance(s.value.value, int):
+            return f"/-- `Ephem.DEFAULT_ORDER` -/\ndef ephemDefaultOrder : Int := {s.value.value}\n"
+    raise py2lean.Untranslatable("Ephem.DEFAULT_ORDER not found")
+
+
 def extract(ctx):
-    return []
+    body = window_source() + "\n" + default_order_source()
+    ch = py2lean.instantiate(core.LEAN, "InterpWin", body, "beyond/utils/interp.py (Interp._lagrange window) and beyond/orbits/ephem.py (DEFAULT_ORDER)")
+    ch += instantiate.main()
+    return ch
 
 
 # ---------------------------------------------------------------- real code adapters
@@ -103,6 +157,268 @@ def error_kind(fn):
     except Exception as e:  # noqa
         return "other-error:" + type(e).__name__, e
 
+
+
+# ---------------------------------------------------------------- correspondence (model vs real code)
+
+def real_call(xs, ys, method, order, x):
+    """Interp(xs, ys, method, order)(x) -> reply in the driver's format (values as floats)"""
+    import numpy as np
+    from beyond.utils.interp import Interp
+    kind, r = error_kind(lambda: Interp(xs, ys, method, order)(x))
+    if kind != "ok":
+        return kind, None
+    return "ok", [float(v) for v in np.atleast_1d(np.asarray(r, dtype=float))]
+
+
+def gen_table(rng):
+    """abscissae (floats, strictly increasing unless `broken`), rows, order"""
+    order = rng.choice([None, 1] + list(range(2, 13)) * 3)
+    n = rng.choice([1, 2, rng.randint(1, 12), rng.randint(2, 40), (order or 2), (order or 2) + 1, (order or 2) + rng.randint(0, 28), (order or 2) + rng.randint(0, 28)])
+    style = rng.choice(["uniform", "jitter", "jitter", "mjd", "int"])
+    if style == "uniform":
+        h = rng.choice([0.5, 1.0, 60.0])
+        x0 = rng.uniform(-100, 100)
+        xs = [x0 + i * h for i in range(n)]
+    elif style == "int":
+        xs = [float(i) for i in range(n)]
+    elif style == "mjd":
+        ts, _, _ = gen_times(rng, n)
+        xs = [58849.0 + t / 86400.0 for t in ts]
+    else:
+        x = rng.uniform(-100, 100)
+        xs = []
+        for _ in range(n):
+            xs.append(x)
+            x += rng.uniform(0.7, 1.3)
+    d = rng.choice([0, 1, 3, 6])     # 0 = 1-D ordinates
+    mag = rng.choice([1.0, 1e3, 7e6])
+    ys = [[rng.uniform(-1, 1) * mag for _ in range(max(d, 1))] for _ in range(n)]
+    return order, xs, ys, d, style
+
+
+def gen_x(rng, xs):
+    n = len(xs)
+    where = rng.choice(["node", "mid", "mid", "mid", "mid", "first", "last", "near-node", "near-node", "before", "after", "far", "nan"] if n >= 2 else ["node", "before", "after", "nan"])
+    if where == "node":
+        return xs[rng.randrange(n)], "node"
+    if where == "before":
+        return math.nextafter(xs[0], -math.inf), "outside"
+    if where == "after":
+        return math.nextafter(xs[-1], math.inf), "outside"
+    if where == "far":
+        return rng.choice([xs[0] - 10.0, xs[-1] + 10.0]), "outside"
+    if where == "nan":
+        return float("nan"), "outside"
+    i = 0 if where == "first" else n - 2 if where == "last" else rng.randrange(n - 1)
+    if where == "near-node":
+        x = math.nextafter(xs[i + 1], rng.choice([-math.inf, math.inf]))
+        x = min(max(x, xs[0]), xs[-1])
+    else:
+        x = xs[i] + rng.uniform(0.001, 0.999) * (xs[i + 1] - xs[i])
+    if x in xs:
+        return x, "node"
+    return x, ("first" if x < xs[1] else "last" if x > xs[-2] else "interior")
+
+
+def correspondence(ctx):
+    import numpy as np
+    from beyond.utils.interp import Interp
+    out = Outcome()
+    rng = ctx.rng
+    reqs, meta = [], []
+
+    def add(req, kind, real, inp, **kw):
+        reqs.append(req)
+        meta.append((kind, real, inp, kw))
+
+    # 1. _prev_idx, exact
+    for _ in range(ctx.n(1500, 30000)):
+        order, xs, ys, d, style = gen_table(rng)
+        x, pos = gen_x(rng, xs)
+        f = Interp(xs, ys, "linear")
+        real = f"ok {int(f._prev_idx(x))}"
+        add(" ".join(["c9prev", str(len(xs)), f2b(x)] + [f2b(v) for v in xs]), "prev", real, {"xs": xs, "x": x})
+        out.count(key=reqs[-1], nontrivial=len(xs) >= 2, kind="prev_idx-" + pos, n=min(len(xs), 13))
+    # 2. the window, recovered from the real code by interpolating one-hot ordinates at a non-node abscissa
+    for _ in range(ctx.n(1500, 30000)):
+        order = rng.randint(1, 12)
+        n = rng.choice([order, order + 1, order + rng.randint(0, 30), order + rng.randint(0, 30)])
+        _, xs, _, _, style = gen_table(rng)
+        while len(xs) < n:
+            xs.append(xs[-1] + rng.uniform(0.7, 1.3))
+        xs = xs[:n]
+        if n < 2:
+            continue
+        x, pos = gen_x(rng, xs)
+        if pos in ("node", "outside"):
+            continue
+        f = Interp(xs, np.eye(n), "lagrange", order)
+        w = np.asarray(f(x))
+        supp = [i for i in range(n) if w[i] != 0.0]
+        real = f"ok {int(f._prev_idx(x))} {supp[0]} {supp[-1] + 1}" if supp == list(range(supp[0], supp[-1] + 1)) else f"support {supp}"
+        add(" ".join(["c9window", str(order), str(n), f2b(x)] + [f2b(v) for v in xs]), "window", real, {"xs": xs, "x": x, "order": order})
+        out.count(key=reqs[-1], kind="window-" + pos, order=order, edge="start" if supp[0] == 0 else "stop" if supp[-1] == n - 1 else "none")
+    # 3. whole calls
+    for _ in range(ctx.n(2500, 50000)):
+        order, xs, ys, d, style = gen_table(rng)
+        method = rng.choice(["lagrange", "lagrange", "linear"])
+        nx = n = len(xs)
+        variant = "plain"
+        r = rng.random()
+        if r < 0.03 and n >= 2:
+            i = rng.randrange(n - 1)
+            xs[i + 1] = xs[i] if rng.random() < 0.5 else xs[i] - 1.0
+            variant = "not-increasing"
+        elif r < 0.06 and n >= 3:
+            if rng.random() < 0.5:
+                ys = ys[:rng.randint(1, n - 1)]
+            else:
+                xs = xs[:rng.randint(1, n - 1)]
+            nx, n = len(xs), len(ys)
+            variant = "length-mismatch"
+        x, pos = gen_x(rng, xs)
+        yarr = np.array(ys)[:, 0] if d == 0 else np.array(ys)
+        kind, val = real_call(xs, yarr, method, order, x)
+        scale = None
+        if kind == "ok" and method == "lagrange":
+            wk, w = real_call(xs[:n], np.eye(n), method, order, x) if nx >= n else ("x", None)
+            if wk == "ok":
+                scale = [float(sum(abs(w[j]) * abs(ys[j][c]) for j in range(n))) for c in range(max(d, 1))]
+        dd = max(d, 1)
+        add(" ".join(["c9call", "l" if method == "linear" else "g", "none" if order is None else str(order), str(nx), str(n), str(dd), f2b(x)]
+                     + [f2b(v) for v in xs] + [f2b(v) for row in ys for v in row]), "call", (kind, val),
+            {"xs": xs, "ys": ys, "x": x, "method": method, "order": order}, scale=scale, method=method)
+        out.count(key=reqs[-1], nontrivial=kind == "ok", kind=f"call-{method}-{pos}", result=kind, variant=variant, order=order, style=style)
+    # 4. Ephem objects: construction order, default method / order, frame + form of the result, conversion after a first interpolation
+    for _ in range(ctx.n(250, 4000)):
+        eph_case(out, rng, add)
+    replies = core.Driver().run(reqs)
+    for req, (kind, real, inp, kw), rep in zip(reqs, meta, replies):
+        compare(out, kind, real, rep, inp, kw)
+        out.sample({"request": req[:100] + "…", "impl": str(real)[:160], "model": rep[:160]}, limit=3)
+    return out
+
+
+def compare(out, kind, real, rep, inp, kw):
+    if kind in ("prev", "window"):
+        if real != rep:
+            out.fail("interp-" + kind, f"{kind}: real code and Lean model differ", inp, observed=real, expected=rep)
+        return
+    if kind == "call":
+        rk, rv = real
+        toks = rep.split()
+        if toks[0] != rk:
+            out.fail("interp-call-kind", "result kind differs between Interp and the Lean model", inp, observed=rk, expected=toks[0])
+            return
+        if rk != "ok":
+            return
+        mv = [b2f(t) for t in toks[1:]]
+        if len(mv) != len(rv):
+            out.fail("interp-call-shape", "result length differs", inp, observed=rv, expected=mv)
+            return
+        for c, (a, b) in enumerate(zip(rv, mv)):
+            if kw["method"] == "linear":
+                ok = a == b or (math.isnan(a) and math.isnan(b))       # elementwise IEEE operations: bit-for-bit
+            else:
+                sc = kw["scale"][c] if kw["scale"] else max(abs(a), abs(b))
+                ok = core.close(a, b, rtol=1e-10, atol=1e-300, scale=sc)
+            if not ok:
+                out.fail("interp-call-value/" + kw["method"], f"component {c} differs between Interp and the Lean model", inp, observed=rv, expected=mv)
+                return
+        return
+    if kind == "eph":
+        parts = rep.split(" | ") if rep else []
+        if len(parts) != len(real):
+            out.fail("ephem-seq", "number of replies differs", inp, observed=real, expected=rep)
+            return
+        for (rk, rlabel, rv), m in zip(real, parts):
+            toks = m.split()
+            if toks[0] != rk:
+                out.fail("ephem-kind", "result kind differs between Ephem.interpolate and the Lean model", inp, observed=rk, expected=toks[0])
+                return
+            if rk != "ok":
+                continue
+            if [toks[1], toks[2]] != rlabel[:2] or b2f(toks[3]) != rlabel[2]:
+                out.fail("ephem-label", "form / frame / date of the interpolated point differ", inp, observed=rlabel, expected=toks[1:4])
+                return
+            mv = [b2f(t) for t in toks[4:]]
+            sc = kw["scale"]
+            if len(mv) != len(rv) or not all(core.close(a, b, rtol=1e-10, atol=1e-300, scale=sc[c] if kw["lagrange"] else max(abs(a), abs(b))) for c, (a, b) in enumerate(zip(rv, mv))):
+                out.fail("ephem-value", "coordinates differ between Ephem.interpolate and the Lean model", inp, observed=rv, expected=mv)
+                return
+
+
+def eph_case(out, rng, add):
+    import numpy as np
+    from beyond.dates import timedelta
+    d0 = base_date()
+    order = rng.choice([None, None, 2, 3, 5, 8, 8, 11, 12])
+    eff = 8 if order is None else order
+    n = rng.choice([eff, eff + 1, eff + rng.randint(0, 12), max(1, eff - rng.randint(1, 3))])
+    method = rng.choice([None, None, "lagrange", "linear"])
+    times, step, uniform = gen_times(rng, n)
+    hetero = rng.random() < 0.15
+    kep, period, sma, ecc = kepler_ephem(rng)
+    scenario = rng.choice(["plain", "plain", "convert-form", "convert-frame"]) if not hetero else "plain"
+    if scenario == "plain":
+        coords = [[rng.uniform(-1, 1) * (7e6 if c < 3 else 7e3) for c in range(6)] for _ in range(n)]
+        forms = [rng.choice(["cartesian", "keplerian"]) for _ in range(n)] if hetero else [rng.choice(["cartesian", "keplerian", "spherical"])] * n
+        frames = [rng.choice(["EME2000", "ITRF"]) for _ in range(n)] if hetero else [rng.choice(["EME2000", "MOD", "ITRF"])] * n
+        eph = mk_ephem(times, coords, method, order, forms, frames, shuffle=rng)
+        given = list(eph._orbits)
+        rng.shuffle(given)     # the model receives the points in an arbitrary order as well and sorts them itself
+    else:
+        pts = [kep.propagate(d0 + timedelta(seconds=t)).copy(form="cartesian") for t in times]
+        from beyond.orbits import Ephem
+        eph = Ephem(pts, method=method, order=order)
+        given = list(eph._orbits)
+
+    def pt_tokens(o):
+        return [f2b(o.date._mjd), str(o.form), str(o.frame)] + [f2b(v) for v in np.asarray(o, dtype=float)]
+
+    toks = ["c9eph", {None: "none", "lagrange": "g", "linear": "l"}[method], "none" if order is None else str(order), str(n), "6"]
+    for o in given:
+        toks += pt_tokens(o)
+    real = []
+    nq = rng.randint(1, 3)
+    ysnap = np.array([np.asarray(o, dtype=float) for o in eph._orbits])
+    xsnap = [o.date._mjd for o in eph._orbits]
+
+    def do_interp(t):
+        from beyond.utils.interp import Interp
+        dq = d0 + timedelta(seconds=t)
+        kind, r = error_kind(lambda: eph.interpolate(dq))
+        toks.extend(["I", f2b(dq._mjd)])
+        if kind == "ok":
+            real.append(("ok", [str(r.form), str(r.frame), r.date._mjd], [float(v) for v in np.asarray(r, dtype=float)]))
+        else:
+            real.append((kind, None, None))
+        return kind
+
+    qs = []
+    for _ in range(nq):
+        if n >= 2 and rng.random() < 0.85:
+            t, pos = gen_query(rng, times)
+        else:
+            t, pos = rng.choice([(q(times[0] - 1.0), "outside"), (q(times[-1] + 0.5), "outside"), (times[0], "node")])
+        qs.append((t, pos))
+    kinds = [do_interp(qs[0][0])]
+    if scenario != "plain":
+        if scenario == "convert-form":
+            eph.form = rng.choice(["keplerian", "spherical"])
+        else:
+            eph.frame = rng.choice(["ITRF", "MOD", "TEME"])
+        toks.append("C")
+        for o in eph._orbits:
+            toks += pt_tokens(o)
+    for t, pos in qs[1:] + ([qs[0]] if scenario != "plain" else []):
+        kinds.append(do_interp(t))
+    scale = [float(np.max(np.abs(ysnap[:, c]))) * 1e3 for c in range(6)]   # |l_j| sum bounded by ~1e3 up to order 12 inside the table
+    add(" ".join(toks), "eph", real, {"times": times, "order": order, "method": method, "scenario": scenario, "queries": qs}, scale=scale,
+        lagrange=method in (None, "lagrange"))
+    out.count(key=" ".join(toks[:40]) + str(qs), nontrivial="ok" in kinds, kind="ephem-" + scenario, method=method, order=order, hetero=hetero,
+              results="+".join(kinds))
 
 # ---------------------------------------------------------------- oracle on the real API
 
